@@ -61,6 +61,24 @@ theorem C03_step (s : Sbx) (hs : C04.Sbx.wf s) (p q : Nat) (op : POp) (hp : Inv 
       unfold Region.contains at hp ⊢
       have : (p + off) % W64 = p + off := Nat.mod_eq_of_lt (by omega)
       rw [this]; omega
+  | elem i n stride =>
+    simp only [stepPtr] at h
+    split at h
+    · next hi =>
+      cases h
+      obtain ⟨h0, hst, h2⟩ := hok
+      rcases hp with rfl | hp
+      · exact absurd rfl h0
+      · right
+        obtain ⟨_, _, hb⟩ := hwf
+        unfold Region.contains at hp ⊢
+        have hlt : i.toNat < n := by omega
+        have hmul : i.toNat * stride + stride ≤ n * stride := by
+          have := Nat.mul_le_mul_right stride (Nat.succ_le_of_lt hlt)
+          rw [Nat.succ_mul] at this; exact this
+        have : (p + i.toNat * stride) % W64 = p + i.toNat * stride := Nat.mod_eq_of_lt (by omega)
+        rw [this]; omega
+    · cases h
 
 /-- Chains of any length: from null or any in-region address, every derivation chain whose
 designation steps are of wholly-inside aggregates ends null or inside the sandbox (no depth bound). -/
